@@ -297,8 +297,12 @@ namespace BitSerializer::Convert::Detail
 			{
 				if (buf != end && (std::isdigit(*buf) || isYear))
 				{
-					if (isYear && *buf == '+') {
-						++buf;
+					if (isYear && *buf == '+')
+					{
+						// Only digits are allowed after an explicit plus sign
+						if (++buf == end || !std::isdigit(*buf)) {
+							throw std::invalid_argument("Input string is not a valid ISO datetime: YYYY-MM-DDThh:mm:ss[.SSS]Z");
+						}
 					}
 					const std::from_chars_result result = std::from_chars(buf, end, outValue);
 					if (result.ec == std::errc())
